@@ -432,6 +432,10 @@ def _run(insts, tier, rng, full):
            "samples": samples, "exhaustive": False, "representations_checked": n_flags, "exact_by_tlc": n_exact, "exact_relations": rels,
            "numeric_slots": n_num, "negative_controls_rejected": nneg + 1, "tlc_runs": tl["runs"],
            "ring_levels": {"M=4": len([m for m in meta[4] if m]), "M=5": len([m for m in meta[5] if m])}, **stats}
+    vk = {}
+    for v in viol:                      # complete list of violation keys with multiplicities (the runner prints only the first 20)
+        vk[v.key] = vk.get(v.key, 0) + 1
+    cov["violation_keys"] = dict(sorted(vk.items()))
     return CheckResult(coverage=cov, violations=viol, assumptions=[
         "Sem(op) = reference table Gates.tla + matrix arithmetic of Ops.tla; parameters on the lattice pi/4 (pi/8 where a decomposition halves angles)",
         "generator convention op = exp(i * theta * generator) with theta the single parameter (Exp: coeff = i*theta); scipy expm on TLC's exact generator matrix",
